@@ -172,9 +172,13 @@ def seeded_cases(prop: str) -> List[Dict[str, Any]]:
     out = []
     if not os.path.isdir(SEEDED_DIR):
         return out
-    for d in sorted(os.listdir(SEEDED_DIR)):
-        mp = os.path.join(SEEDED_DIR, d, "meta.json")
-        pp = os.path.join(SEEDED_DIR, d, "patch.diff")
+    # seeded/: changes made independently (sub-agents); fixrev/: every recorded "fix:" commit of /repo, reverted (generated by
+    # tools/gen_fixrev.py from known_findings.json) - the rule that was written for the defect must report the reverted fix
+    FIXREV_DIR = os.path.join(os.path.dirname(SEEDED_DIR), "fixrev")
+    dirs = [(SEEDED_DIR, d) for d in sorted(os.listdir(SEEDED_DIR))] + ([(FIXREV_DIR, d) for d in sorted(os.listdir(FIXREV_DIR))] if os.path.isdir(FIXREV_DIR) else [])
+    for base_dir, d in dirs:
+        mp = os.path.join(base_dir, d, "meta.json")
+        pp = os.path.join(base_dir, d, "patch.diff")
         if not (os.path.exists(mp) and os.path.exists(pp)):
             continue
         with open(mp, "r", encoding="utf-8") as f:
